@@ -148,6 +148,6 @@ C16_OutcomeAllowed ==
     /\ outcome \in {"error", "timeout"} =>
          \A t \in 1..ntx : Out(outcome, Examined(t), 0) \in Allowed(hist[t], caseRand)
 
-\* a finished query stays finished and examines nothing more
-C16_Final == [][outcome # "listening" => UNCHANGED vars]_vars
+\* sanity of the machine (not a requirement of the property): a finished query stays finished
+Sanity_Final == [][outcome # "listening" => UNCHANGED vars]_vars
 =============================================================================
